@@ -33,6 +33,12 @@ func normalizeCompileError(msg string) string {
 		if strings.HasSuffix(w, "ArrayToPQ") {
 			return "XArrayToPQ"
 		}
+		if len(w) > 4 && strings.HasSuffix(w, "Kind") { // <Member><Un>Kind constants of the union wrappers
+			return "XKind"
+		}
+		if len(w) > 7 && strings.HasSuffix(w, "Wrapper") {
+			return "XWrapper"
+		}
 		if strings.HasPrefix(w, "Scan") && strings.HasSuffix(w, "Array") {
 			return "ScanXArray"
 		}
